@@ -364,3 +364,35 @@ def force_flag(flag, val):
         want_true = (val != neg)
         return tt["otherwise"] if want_true else zero[0]
     return fz
+
+
+def only_via(body, target_bb, pred, val, from_bb=0, within=None):
+    """every path from from_bb to target_bb takes, at some switch whose condition expression satisfies pred, the edge on
+    which that condition has the value `val` (bool: truth value through `!`; str: the switch value, e.g. "0").
+    Decided by cutting those edges: the target must become unreachable. `within`: only switches in these blocks."""
+    cut = []
+    for sw in (within if within is not None else range(len(body.blocks))):
+        t = body.term(sw)
+        if t["k"] != "switch":
+            continue
+        x = flow.expr_of(body, t["discr"], sw)
+        if x[0] == "path" and x[1][0] == "local" and not x[2]:
+            for s_ in body.blocks[sw]["s"]:
+                if s_[0] == "=" and s_[1] == [x[1][1]] and s_[2][0] == "discr":
+                    x = ("discr", flow.place_expr(body, s_[2][1]))
+        neg = False
+        while x[0] == "un" and x[1] == "Not":
+            x = x[2]
+            neg = not neg
+        if not pred(x):
+            continue
+        if isinstance(val, bool):
+            zero = [y for v, y in t["targets"] if v == "0"]
+            if not zero:
+                continue
+            want_true = (val != neg)
+            cut.append((sw, t["otherwise"] if want_true else zero[0]))
+        else:
+            tg = [y for v, y in t["targets"] if v == val]
+            cut.append((sw, tg[0] if tg else t["otherwise"]))
+    return bool(cut) and target_bb not in body.reachable_from(from_bb, cut_edges=cut)
